@@ -128,7 +128,8 @@ Lemma fr_hijack num q cont cc0 st0 br fbr b cs t off dirty :
   forallb (fun e => negb (is_hijack_ev e)) pre = true /\
   cont = true /\ h_hijack (req_hstate E num q cont st0) = true /\
   (h_noresp (req_hstate E num q cont st0) = false ->
-     In (Resp (resp_of num q cont (req_hstate E num q cont st0) false)) pre).
+     In (Resp (resp_of num q cont (req_hstate E num q cont st0) false)) pre) /\
+  In (Dispatch num q) pre.
 Proof.
   assert (Hc : cont = false -> h_hijack (req_hstate E num q cont st0) = false).
   { intros ->. reflexivity. }
@@ -182,7 +183,7 @@ Definition iter_tail (s : lst) (S : bytes) (fbr0 : bool) (d0 : bool) (mid tailev
   \/ exists q cont cc0 st0 br fbr b cs off,
        tailev = fst (FR (l_num s + 1)%N q cont cc0 st0 br fbr b cs (tl (l_rd s)) off (unflushed_from d0 mid)) /\
        r = snd (FR (l_num s + 1)%N q cont cc0 st0 br fbr b cs (tl (l_rd s)) off (unflushed_from d0 mid)) /\
-       (cont = false -> cc0 = true) /\ (fbr = true -> fbr0 = true) /\
+       (cont = false -> cc0 = true) /\ (fbr = true -> fbr0 = true) /\ (cont = true -> st0 = StatusOK /\ cc0 = false) /\
        (cont = true -> exists k, framed F S q k /\ b ++ concat cs = skipn k S /\ 0 < k <= length S /\
                                  off = l_off s + k /\ (br = false -> b = [])).
 
@@ -373,7 +374,7 @@ Proof.
   destruct Hrun as (avail & fl & mid & tailev & -> & Hav & Hfl & Hmid & fbr0 & Hfbr0 & Ht).
   destruct (fl_mid_facts _ _ _ Hfl Hmid) as (S1 & S2 & _ & _).
   destruct Ht as [[H _]|[[H _]|Ht]]; try discriminate.
-  destruct Ht as (q & cont & cc0 & st0 & br & fbr & b & cs & off & -> & Hr & Hc0 & Hfb & Hk).
+  destruct Ht as (q & cont & cc0 & st0 & br & fbr & b & cs & off & -> & Hr & Hc0 & Hfb & Hst0 & Hk).
   symmetry in Hr. pose proof (fr_sts (l_num s + 1)%N q cont cc0 st0 br fbr b cs (tl (l_rd s)) off
      (unflushed_from (unflushed_from (l_dirty s) fl) mid)) as Hsts. rewrite Hr in Hsts.
   apply fr_next in Hr as (N1 & N2 & N3 & N4 & N5 & N6 & N7); [|exact Hc0].
@@ -498,6 +499,126 @@ Proof.
 Qed.
 
 
+(* ---------- C17: hijacking ---------- *)
+Definition no_hijack (l : list event) : bool := forallb (fun e => negb (is_hijack_ev e)) l.
+
+Lemma no_hijack_app a b : no_hijack (a ++ b) = no_hijack a && no_hijack b.
+Proof. apply forallb_app. Qed.
+
+Lemma fr_nohijack num q cont cc0 st0 br fbr b cs t off dirty :
+  snd (FR num q cont cc0 st0 br fbr b cs t off dirty) <> ExitHijack ->
+  no_hijack (fst (FR num q cont cc0 st0 br fbr b cs t off dirty)) = true.
+Proof.
+  fr_split num q cont cc0 st0 br b dirty; cbn; auto; congruence.
+Qed.
+
+(* what is known at the moment the hijack handler is started *)
+Record hijack_facts (S0 : bytes) (d0 : bool) (pre : list event) (src : hj_src) (hb : bytes) (hcs : list bytes) : Prop := {
+  hf_nohj : no_hijack pre = true;
+  hf_flushed : unflushed_from d0 pre = false;
+  hf_req : exists num q off k,
+      In (Dispatch num q) pre /\ framed F (skipn off S0) q k /\
+      hb ++ concat hcs = skipn (off + k) S0 /\ off + k <= length S0 /\
+      h_hijack (req_hstate E num q true StatusOK) = true /\
+      (h_noresp (req_hstate E num q true StatusOK) = false ->
+         In (Resp (resp_of num q true (req_hstate E num q true StatusOK) false)) pre);
+  hf_conn : src = HjConn -> hb = []
+}.
+
+Lemma iter_nohijack s evs r :
+  linv s -> serve_iter F cfg E s = (evs, r) -> r <> ExitHijack -> no_hijack evs = true.
+Proof.
+  intros Hinv Hrun Hr. apply iter_decomp in Hrun; [|exact Hinv].
+  destruct Hrun as [[-> ->]|[[-> ->]|Hrun]].
+  - destruct (l_dirty s); reflexivity.
+  - reflexivity.
+  - destruct Hrun as (avail & fl & mid & tailev & -> & Hav & Hfl & Hmid & fbr0 & Hfbr0 & Ht).
+    assert (H1 : no_hijack fl = true) by (destruct Hfl as [->|[-> _]]; reflexivity).
+    assert (H2 : no_hijack mid = true) by (destruct Hmid as [->| ->]; reflexivity).
+    cbn. fold (no_hijack (fl ++ mid ++ tailev)). rewrite !no_hijack_app, H1, H2. cbn.
+    destruct Ht as [(-> & _ & ->)|[(-> & e & ->)|Ht]].
+    + destruct (unflushed_from (l_dirty s) fl); reflexivity.
+    + reflexivity.
+    + destruct Ht as (q & cont & cc0 & st0 & br & fbr & b & cs & off & -> & -> & _). apply fr_nohijack. exact Hr.
+Qed.
+
+Lemma iter_hijack S0 s evs :
+  linv s -> sinv S0 s -> serve_iter F cfg E s = (evs, ExitHijack) ->
+  exists pre src hb hcs, evs = pre ++ [HijackEv src hb hcs] /\ hijack_facts S0 (l_dirty s) pre src hb hcs /\
+                         (src = HjBrFbr -> reduce_mem cfg = true \/ l_fbr s = true).
+Proof.
+  intros Hinv [Hs1 Hs2] Hrun. apply iter_decomp in Hrun; [|exact Hinv].
+  destruct Hrun as [[H _]|[[H _]|Hrun]]; try discriminate.
+  destruct Hrun as (avail & fl & mid & tailev & -> & Hav & Hfl & Hmid & fbr0 & Hfbr0 & Ht).
+  destruct Ht as [[H _]|[[H _]|Ht]]; try discriminate.
+  destruct Ht as (q & cont & cc0 & st0 & br & fbr & b & cs & off & -> & Hr & Hc0 & Hfb & Hst0 & Hk).
+  symmetry in Hr. apply fr_hijack in Hr as (R1 & R2 & R3 & R4 & R5 & R6 & R7).
+  destruct (Hst0 R4) as [-> ->]. destruct (Hk R4) as (k & K1 & K2 & K3 & K4 & K5). subst cont.
+  set (d := unflushed_from (unflushed_from (l_dirty s) fl) mid) in *.
+  set (pre0 := removelast (fst (FR (l_num s + 1)%N q true false StatusOK br fbr b cs (tl (l_rd s)) off d))) in *.
+  exists (St StActive :: ParseAt (l_off s) avail :: fl ++ mid ++ pre0), (hj_src_of br fbr), b, cs.
+  split.
+  - rewrite R1. cbn. rewrite <- !app_assoc. reflexivity.
+  - split.
+    + assert (H1 : no_hijack fl = true) by (destruct Hfl as [->|[-> _]]; reflexivity).
+      assert (H2 : no_hijack mid = true) by (destruct Hmid as [->| ->]; reflexivity).
+      constructor.
+      * cbn. fold (no_hijack (fl ++ mid ++ pre0)). rewrite !no_hijack_app, H1, H2. exact R3.
+      * cbn. rewrite !unflushed_app. exact R2.
+      * exists (l_num s + 1)%N, q, (l_off s), k. repeat split.
+        -- right. right. rewrite !in_app_iff. right. right. exact R7.
+        -- rewrite <- Hs1. exact K1.
+        -- rewrite K2, Hs1, skipn_skipn'. reflexivity.
+        -- rewrite Hs1, skipn_length in K3. lia.
+        -- exact R5.
+        -- intros Hn. right. right. rewrite !in_app_iff. right. right. apply R6. exact Hn.
+      * unfold hj_src_of. destruct br; [destruct fbr; discriminate|]. intros _. apply K5. reflexivity.
+    + unfold hj_src_of. destruct br; [|discriminate]. destruct fbr; [|discriminate]. intros _. apply Hfbr0, Hfb. reflexivity.
+Qed.
+
+Lemma loop_hijack S0 fuel s :
+  linv s -> sinv S0 s -> (l_fbr s = true -> reduce_mem cfg = true) ->
+  snd (serve_loop F cfg E fuel s) = LHijack ->
+  exists pre src hb hcs,
+    fst (serve_loop F cfg E fuel s) = pre ++ [HijackEv src hb hcs] /\
+    hijack_facts S0 (l_dirty s) pre src hb hcs /\ (src = HjBrFbr -> reduce_mem cfg = true).
+Proof.
+  revert s. induction fuel as [|f IH]; intros s Hinv Hsinv Hfbr; cbn; [discriminate|].
+  destruct (serve_iter F cfg E s) as [e1 r] eqn:Hit.
+  destruct r as [s'| |]; cbn; try discriminate.
+  - pose proof (iter_nohijack _ _ _ Hinv Hit) as Hnh.
+    apply iter_next in Hit as (I1 & _ & (k & Hk & Hr & Ho) & Hd & _ & Hf); [|exact Hinv].
+    specialize (IH s' I1 (sinv_next _ _ _ _ Hsinv Hk Hr Ho)).
+    destruct (serve_loop F cfg E f s') as [e2 r2]. cbn in *. intros Hh.
+    destruct IH as (pre & src & hb & hcs & -> & [F1 F2 F3 F4] & F5); auto.
+    { intros Hx. destruct (Hf Hx); auto. }
+    exists (e1 ++ pre), src, hb, hcs. split; [rewrite app_assoc; reflexivity|]. split; [|exact F5].
+    constructor.
+    + rewrite no_hijack_app, Hnh, F1 by discriminate. reflexivity.
+    + rewrite unflushed_app, <- Hd. exact F2.
+    + destruct F3 as (num & q & off & k0 & G1 & G2 & G3 & G4 & G5 & G6).
+      exists num, q, off, k0. repeat split; auto.
+      * apply in_or_app. right. exact G1.
+      * intros Hn. apply in_or_app. right. apply G6. exact Hn.
+    + exact F4.
+  - intros _. apply iter_hijack with (S0 := S0) in Hit as (pre & src & hb & hcs & -> & Hf & Hs); auto.
+    exists pre, src, hb, hcs. split; [reflexivity|]. split; [exact Hf|]. intros Hx. destruct (Hs Hx); auto.
+Qed.
+
+Lemma loop_exit_nohijack fuel s :
+  linv s -> snd (serve_loop F cfg E fuel s) <> LHijack -> no_hijack (fst (serve_loop F cfg E fuel s)) = true.
+Proof.
+  revert s. induction fuel as [|f IH]; intros s Hinv; cbn; [reflexivity|].
+  destruct (serve_iter F cfg E s) as [e1 r] eqn:Hit.
+  destruct r as [s'| |]; cbn.
+  - pose proof (iter_nohijack _ _ _ Hinv Hit) as Hnh.
+    apply iter_next in Hit as (I1 & _); [|exact Hinv]. specialize (IH s' I1).
+    destruct (serve_loop F cfg E f s') as [e2 r2]. cbn in *. intros Hne.
+    unfold no_hijack in *. rewrite forallb_app, Hnh by discriminate. cbn. apply IH. exact Hne.
+  - intros _. apply (iter_nohijack _ _ _ Hinv Hit). discriminate.
+  - congruence.
+Qed.
+
 (* ---------- C14 at the level of serve_conn ---------- *)
 Lemma lst_init_inv rd : linv (lst_init rd) /\ sinv (remaining rd) (lst_init rd) /\
                         remaining (l_rd (lst_init rd)) = remaining rd.
@@ -542,6 +663,166 @@ Proof.
   - destruct en; reflexivity.
 Qed.
 
+(* ---------- C17 at the level of serve_conn ---------- *)
+Definition hijack_tail : list event := St StHijacked :: (if keep_hijacked cfg then [] else [HijackClose]).
+
+Theorem hijack_shape en ad rd src hb hcs :
+  In (HijackEv src hb hcs) (serve_conn F cfg E en ad rd) ->
+  exists pre,
+    serve_conn F cfg E en ad rd = St StNew :: pre ++ HijackEv src hb hcs :: hijack_tail /\
+    hijack_facts (remaining rd) false pre src hb hcs /\ (src = HjBrFbr -> reduce_mem cfg = true).
+Proof.
+  destruct ad.
+  2:{ cbn. intros H. repeat (destruct H as [H|H]; [discriminate|]). destruct H. }
+  2:{ destruct en; cbn; intros H; repeat (destruct H as [H|H]; [discriminate|]); destruct H. }
+  rewrite serve_conn_admit. destruct (lst_init_inv rd) as (I1 & I2 & I3).
+  set (fuel := S (length (remaining rd))).
+  destruct (snd (serve_loop F cfg E fuel (lst_init rd))) eqn:Hr.
+  - (* the loop exited without hijacking: no such event *)
+    intros H. exfalso. destruct H as [H|H]; [discriminate|]. apply in_app_or in H as [H|H].
+    + pose proof (loop_exit_nohijack fuel (lst_init rd) I1) as Hn. rewrite Hr in Hn. specialize (Hn ltac:(discriminate)).
+      unfold no_hijack in Hn. rewrite forallb_forall in Hn. specialize (Hn _ H). discriminate.
+    + cbn in H. repeat (destruct H as [H|H]; [discriminate|]). destruct H.
+  - intros H.
+    destruct (loop_hijack (remaining rd) fuel (lst_init rd) I1 I2) as (pre & src' & hb' & hcs' & Hev & Hf & Hs); auto.
+    { cbn. discriminate. }
+    rewrite Hev in *. exists pre.
+    assert (Heq : HijackEv src hb hcs = HijackEv src' hb' hcs').
+    { destruct H as [H|H]; [discriminate|]. apply in_app_or in H as [H|H].
+      - apply in_app_or in H as [H|H].
+        + exfalso. destruct Hf as [Hn _ _ _]. unfold no_hijack in Hn. rewrite forallb_forall in Hn. specialize (Hn _ H). discriminate.
+        + destruct H as [H|[]]. auto.
+      - exfalso. cbn in H. destruct H as [H|H]; [discriminate|]. destruct (keep_hijacked cfg); cbn in H; [destruct H|].
+        destruct H as [H|[]]. discriminate. }
+    injection Heq as -> -> ->. split; [|split; [exact Hf|exact Hs]].
+    unfold hijack_tail. cbn. rewrite <- app_assoc. reflexivity.
+  - exfalso. apply (serve_conn_fuel_ok rd). exact Hr.
+Qed.
+
+(* corollaries in the shape of the C17 theorems *)
+Theorem response_before_handler en ad rd src hb hcs :
+  In (HijackEv src hb hcs) (serve_conn F cfg E en ad rd) ->
+  exists pre post num q,
+    serve_conn F cfg E en ad rd = pre ++ HijackEv src hb hcs :: post /\
+    unflushed_from false pre = false /\
+    In (Dispatch num q) pre /\ h_hijack (req_hstate E num q true StatusOK) = true /\
+    (h_noresp (req_hstate E num q true StatusOK) = false ->
+       In (Resp (resp_of num q true (req_hstate E num q true StatusOK) false)) pre).
+Proof.
+  intros H. apply hijack_shape in H as (pre & Heq & [F1 F2 F3 F4] & _).
+  destruct F3 as (num & q & off & k & G1 & G2 & G3 & G4 & G5 & G6).
+  exists (St StNew :: pre), hijack_tail, num, q. repeat split; auto.
+  - right. exact G1.
+  - intros Hn. right. apply G6. exact Hn.
+Qed.
+
+Theorem bytes_intact en ad rd src hb hcs :
+  In (HijackEv src hb hcs) (serve_conn F cfg E en ad rd) ->
+  exists pre post num q off k,
+    serve_conn F cfg E en ad rd = pre ++ HijackEv src hb hcs :: post /\
+    In (Dispatch num q) pre /\ h_hijack (req_hstate E num q true StatusOK) = true /\
+    framed F (skipn off (remaining rd)) q k /\
+    hb ++ concat hcs = skipn (off + k) (remaining rd) /\
+    forall n, hijack_in hb hcs n = firstn n (skipn (off + k) (remaining rd)).
+Proof.
+  intros H. apply hijack_shape in H as (pre & Heq & [F1 F2 F3 F4] & _).
+  destruct F3 as (num & q & off & k & G1 & G2 & G3 & G4 & G5 & G6).
+  exists (St StNew :: pre), hijack_tail, num, q, off, k. repeat split; auto.
+  - right. exact G1.
+  - intros n. unfold hijack_in. rewrite G3. reflexivity.
+Qed.
+
+Theorem server_silent_after en ad rd src hb hcs :
+  In (HijackEv src hb hcs) (serve_conn F cfg E en ad rd) ->
+  exists pre post,
+    serve_conn F cfg E en ad rd = pre ++ HijackEv src hb hcs :: post /\
+    forallb (fun e => negb (is_hijack_ev e)) pre = true /\
+    forallb (fun e => negb (loop_io e)) post = true.
+Proof.
+  intros H. apply hijack_shape in H as (pre & Heq & [F1 F2 F3 F4] & _).
+  exists (St StNew :: pre), hijack_tail. repeat split; auto.
+  unfold hijack_tail. destruct (keep_hijacked cfg); reflexivity.
+Qed.
+
+Theorem closed_unless_kept en ad rd src hb hcs :
+  In (HijackEv src hb hcs) (serve_conn F cfg E en ad rd) ->
+  exists pre,
+    serve_conn F cfg E en ad rd =
+      pre ++ HijackEv src hb hcs :: St StHijacked :: (if keep_hijacked cfg then [] else [HijackClose]) /\
+    ~ In Close (serve_conn F cfg E en ad rd).
+Proof.
+  intros H. pose proof H as H0. apply hijack_shape in H as (pre & Heq & [F1 F2 F3 F4] & _).
+  exists (St StNew :: pre). split; [exact Heq|].
+  (* Close is only produced by after_loop LExit / the rejections: not in a hijacked run *)
+  destruct ad.
+  2:{ exfalso. cbn in H0. repeat (destruct H0 as [H0|H0]; [discriminate|]). destruct H0. }
+  2:{ exfalso. destruct en; cbn in H0; repeat (destruct H0 as [H0|H0]; [discriminate|]); destruct H0. }
+  clear Heq. rewrite serve_conn_admit in *.
+  assert (Hnc : forall fuel s, ~ In Close (fst (serve_loop F cfg E fuel s))).
+  { induction fuel as [|f IH]; intros s; cbn; [tauto|].
+    destruct (serve_iter F cfg E s) as [e1 r] eqn:Hit.
+    assert (Hc1 : ~ In Close e1).
+    { clear IH. unfold serve_iter in Hit. destruct (first_byte cfg s).
+      - injection Hit as <- _. unfold serve_req. cbv zeta. cbn [fst]. intros Hin.
+        destruct Hin as [Hin|[Hin|Hin]]; try discriminate.
+        apply in_app_or in Hin as [Hin|Hin].
+        { destruct (l_dirty s && _); cbn in Hin; intuition discriminate. }
+        revert Hin.
+        assert (Hfr : forall num q cont cc0 st0 br fbr0 b0 cs0 t off d, ~ In Close (fst (FR num q cont cc0 st0 br fbr0 b0 cs0 t off d))).
+        { intros num q cont cc0 st0 br fbr0 b0 cs0 t off d.
+          fr_split num q cont cc0 st0 br b0 d; cbn; intuition discriminate. }
+        assert (Hsil : forall d, ~ In Close (fst (silent_exit d))) by (intros []; cbn; intuition discriminate).
+        assert (Herr : forall e, ~ In Close (fst (error_exit e))) by (intros e; cbn; intuition discriminate).
+        destruct (read_head F b cs) as [q hn b1 cs1|e|b']; [|apply Herr|destruct (head_end F b' (tl (l_rd s))); [apply Herr|apply Hsil]].
+        unfold after_head. cbv zeta.
+        destruct (q_expect q).
+        + destruct (release_rule cfg (skipn hn b1) fbr) as [[br fbr'] b3].
+          assert (Hgo : ~ In Close (fst (match read_body F q b3 cs1 with
+             | RbOk bn b4 cs4 => let '(br2, fbr2, b6) := release_rule cfg (skipn bn b4) (br && fbr') in
+                 ([Resp continue_resp; Flush] ++ fst (FR (l_num s + 1)%N q true false StatusOK br2 fbr2 b6 cs4 (tl (l_rd s)) (l_off s + hn + bn) false),
+                  snd (FR (l_num s + 1)%N q true false StatusOK br2 fbr2 b6 cs4 (tl (l_rd s)) (l_off s + hn + bn) false))
+             | RbErr e => ([Resp continue_resp; Flush] ++ fst (error_exit e), Exit)
+             | RbEnd b' => ([Resp continue_resp; Flush] ++ fst (error_exit match body_end F q b' (tl (l_rd s)) with Some e => e | None => EcOther end), Exit)
+             end))).
+          { destruct (read_body F q b3 cs1) as [bn b4 cs4|e|b'].
+            - destruct (release_rule cfg (skipn bn b4) (br && fbr')) as [[br2 fbr2] b6]. cbn [fst].
+              intros Hin. destruct Hin as [Hin|[Hin|Hin]]; try discriminate. revert Hin. apply Hfr.
+            - cbn. intuition discriminate.
+            - cbn. intuition discriminate. }
+          destruct (xmode cfg); [exact Hgo| |].
+          * destruct (Z.eqb _ _); [exact Hgo|apply Hfr].
+          * destruct (continue_ok E _ q); [exact Hgo|apply Hfr].
+        + destruct (read_body F q (skipn hn b1) cs1) as [bn b3 cs3|e|b']; [|apply Herr|destruct (body_end F q b' (tl (l_rd s))); [apply Herr|apply Hsil]].
+          destruct (release_rule cfg (skipn bn b3) fbr) as [[br fbr'] b5]. apply Hfr.
+      - injection Hit as <- _. destruct (l_dirty s); cbn; intuition discriminate.
+      - injection Hit as <- _. cbn; intuition discriminate. }
+    destruct r as [s'| |]; cbn; auto.
+    specialize (IH s'). destruct (serve_loop F cfg E f s') as [e2 r2]. cbn in *.
+    intros Hin. apply in_app_or in Hin as [Hin|Hin]; auto. }
+  intros Hin. destruct Hin as [Hin|Hin]; [discriminate|]. apply in_app_or in Hin as [Hin|Hin].
+  - exact (Hnc _ _ Hin).
+  - (* after_loop: Close only for LExit, but then there is no HijackEv *)
+    destruct (snd (serve_loop F cfg E (S (length (remaining rd))) (lst_init rd))) eqn:Hr.
+    + destruct (lst_init_inv rd) as (I1 & _).
+      pose proof (loop_exit_nohijack (S (length (remaining rd))) (lst_init rd) I1) as Hn.
+      rewrite Hr in Hn. specialize (Hn ltac:(discriminate)).
+      destruct H0 as [H0|H0]; [discriminate|]. apply in_app_or in H0 as [H0|H0].
+      * unfold no_hijack in Hn. rewrite forallb_forall in Hn. specialize (Hn _ H0). discriminate.
+      * cbn in H0. intuition discriminate.
+    + cbn in Hin. destruct Hin as [Hin|Hin]; [discriminate|]. destruct (keep_hijacked cfg); cbn in Hin; intuition discriminate.
+    + cbn in Hin. intuition discriminate.
+Qed.
+
+(* reads after the handler returned (KeepHijackedConns): intact unless the reader goes through ctx.fbr *)
+Theorem late_reads_intact en ad rd src hb hcs :
+  In (HijackEv src hb hcs) (serve_conn F cfg E en ad rd) ->
+  reduce_mem cfg = false -> keep_hijacked cfg = true ->
+  forall k, hijack_late (keep_hijacked cfg) src hb hcs k = LateAll (skipn k (hb ++ concat hcs)).
+Proof.
+  intros H Hrm Hk k. apply hijack_shape in H as (pre & _ & _ & Hs).
+  unfold hijack_late. rewrite Hk. cbn. destruct src; auto. specialize (Hs eq_refl). congruence.
+Qed.
+
 End Loop.
 
 (* a word the automaton accepts has exactly one terminal report, at the end (or is empty) *)
@@ -579,4 +860,41 @@ Proof.
   all: exfalso; destruct l as [|y l] using rev_ind; [discriminate|];
     rewrite fold_left_app in Ha; cbn in Ha;
     destruct (fold_left astep l A0), y; discriminate.
+Qed.
+
+(* ---------- witnesses for the refuted statements ---------- *)
+(* a toy reader: every byte 'R' is a complete request; any other first byte is an error *)
+Definition toy_q : req_sum :=
+  {| q_head := false; q_http11 := true; q_close := false; q_expect := false; q_cl := (-2)%Z; q_tag := [] |}.
+Definition toy_framer : framer :=
+  {| fhead := fun b => match b with [] => FhMore | x :: _ => if (x =? 82)%N then FhOk toy_q 1 else FhErr EcOther end;
+     fbody := fun _ _ => FbOk 0;
+     head_end := fun _ _ => None;
+     body_end := fun _ _ _ => None |}.
+Lemma toy_framer_ok : framer_ok toy_framer.
+Proof.
+  split.
+  - intros b q hn. cbn. destruct b as [|x b]; [discriminate|]. destruct (x =? 82)%N; [|discriminate].
+    intros H; injection H as <- <-. cbn. lia.
+  - intros q b bn. cbn. intros H; injection H as <-. lia.
+Qed.
+
+Definition toy_env (ops : list hop) : env :=
+  {| handler := fun _ _ => ops; expect_status := fun _ _ => 100%Z; continue_ok := fun _ _ => true;
+     stop_at_close := fun _ => false; stop_at_idle := fun _ => false |}.
+
+(* KeepHijackedConns + ReduceMemoryUsage + bytes buffered behind the hijacking request: the connection that
+   escaped the hijack handler reads through the released ctx.fbr *)
+Theorem late_reads_refuted :
+  exists F cfg E en ad rd src hb hcs k,
+    framer_ok F /\ In (HijackEv src hb hcs) (serve_conn F cfg E en ad rd) /\ keep_hijacked cfg = true /\
+    hijack_late (keep_hijacked cfg) src hb hcs k = LatePanic (skipn k hb) /\
+    hijack_late (keep_hijacked cfg) src hb hcs k <> LateAll (skipn k (hb ++ concat hcs)).
+Proof.
+  exists toy_framer,
+         {| reduce_mem := true; stream_body := false; disable_keepalive := false; close_on_shutdown := false;
+            keep_hijacked := true; max_reqs := 0%N; xmode := XNone |},
+         (toy_env [HijackOp]), ViaServe, Admit, {| buf := []; chunks := [[82; 1; 2; 3]%N]; tl := Eof |},
+         HjBrFbr, [1; 2; 3]%N, [], 1.
+  split; [exact toy_framer_ok|]. split; [vm_compute; tauto|]. split; [reflexivity|]. split; [reflexivity|discriminate].
 Qed.
